@@ -5,7 +5,7 @@ Import ListNotations.
 Open Scope Z_scope.
 
 (* the flags the translator read from klongpy/types.py, backends/numpy_backend.py and parser.py at this run *)
-Definition src_flags : flags := mkFlags kgsym_eq_guard kgchar_eq_guard literal_deepcopy.
+Definition src_flags : flags := mkFlags kgsym_eq_guard kgchar_eq_guard literal_deepcopy literal_nested_built.
 
 (* T10.refine — for EVERY operation sequence (any length, any number of dictionaries,
    names, aliases and functions holding a literal, any operands) every observable result of
@@ -19,7 +19,8 @@ Theorem C10_refine : forall ops,
   Forall2 obs_ref (snd (model_run src_flags ops)) (snd (spec_run ops)).
 Proof.
   exact (fun ops => refine_shaped dict_ops_shape_ok (eq_refl : dict_ops_shape_ok = true) src_flags ops
-     (eq_refl : kgsym_eq_guard = true) (eq_refl : kgchar_eq_guard = true) (eq_refl : literal_deepcopy = true)).
+     (eq_refl : kgsym_eq_guard = true) (eq_refl : kgchar_eq_guard = true) (eq_refl : literal_deepcopy = true)
+     (eq_refl : literal_nested_built = true)).
 Qed.
 Print Assumptions C10_refine.
 
@@ -109,9 +110,23 @@ Proof.
      (fun d (H : exists m, dict_ref d m) k c Hk =>
         match H with ex_intro _ m Hm =>
           each_once src_flags d m k c (conj (eq_refl : kgsym_eq_guard = true) (eq_refl : kgchar_eq_guard = true)) Hm Hk end)
-     (reachable_ref src_flags ops (eq_refl : kgsym_eq_guard = true) (eq_refl : kgchar_eq_guard = true) (eq_refl : literal_deepcopy = true))).
+     (reachable_ref src_flags ops (eq_refl : kgsym_eq_guard = true) (eq_refl : kgchar_eq_guard = true) (eq_refl : literal_deepcopy = true)
+        (eq_refl : literal_nested_built = true))).
 Qed.
 Print Assumptions C10_each.
+
+(* Each with an f that also reads dictionaries (any observation: find, index, size, each — of this or
+   another dictionary) visits exactly what plain Each visits.  When f UPDATES the dictionary CPython's
+   iterator semantics apply (size change -> RuntimeError before the next item; an overwrite is seen live):
+   modelled by each_do and compared with the implementation, not part of the refinement (the property
+   says nothing about mutation during Each). *)
+Theorem C10_each_readonly : forall o st l d fuel i acc,
+  fst (step (model_impl src_flags) src_flags o st) = st -> snd (step (model_impl src_flags) src_flags o st) <> RErr ->
+  nth_error (heap st) l = Some d -> (length d - i < fuel)%nat ->
+  each_do (model_impl src_flags) src_flags fuel i (length d) l o st acc =
+    (st, RVisits (rev acc ++ skipn i (di_visits (model_impl src_flags) d))).
+Proof. exact (each_do_readonly src_flags). Qed.
+Print Assumptions C10_each_readonly.
 
 (* The behaviour before the fix of KGChar.__eq__ (a stored character key answers the lookup
    of the symbol of the same text, not the other way round) is not a finite map: *)
@@ -119,11 +134,14 @@ Definition w_charsym : list op :=
   [OLit 0 0 []; OJoinL (AVar 0) (ALit (VList [VChar 97; VInt 1])); OFind (AVar 0) (ALit (VSym [97]))].
 
 Theorem C10_refuted_without_char_guard :
-  ~ Forall2 obs_ref (snd (model_run (mkFlags true false true) w_charsym)) (snd (spec_run w_charsym)).
+  ~ Forall2 obs_ref (snd (model_run (mkFlags true false true true) w_charsym)) (snd (spec_run w_charsym)).
 Proof.
-  intro H. vm_compute in H.
+  intro H.
+  assert (E1 : snd (model_run (mkFlags true false true true) w_charsym) = [RVal (VRef 0); RVal (VRef 0); RVal (VInt 1)]) by (vm_compute; reflexivity).
+  assert (E2 : snd (spec_run w_charsym) = [RVal (VRef 0); RVal (VRef 0); RVal VUndef]) by (vm_compute; reflexivity).
+  rewrite E1, E2 in H.
   inversion H as [|? ? ? ? _ H1]; subst. inversion H1 as [|? ? ? ? _ H2]; subst.
-  inversion H2 as [|? ? ? ? H3 _]; subst. discriminate H3.
+  inversion H2 as [|? ? ? ? H3 _]; subst. unfold obs_ref, res_rel in H3. discriminate H3.
 Qed.
 
 (* Without the deep copy at evaluation time a literal inside a function called twice yields
@@ -133,11 +151,56 @@ Definition w_shared : list op :=
    OJoinL (AVar 0) (ALit (VList [VInt 1; VInt 9])); OFind (AVar 1) (ALit (VInt 1))].
 
 Theorem C10_refuted_without_deepcopy :
-  ~ Forall2 obs_ref (snd (model_run (mkFlags true true false) w_shared)) (snd (spec_run w_shared)).
+  ~ Forall2 obs_ref (snd (model_run (mkFlags true true false true) w_shared)) (snd (spec_run w_shared)).
 Proof.
-  intro H. vm_compute in H.
+  intro H.
+  assert (E1 : snd (model_run (mkFlags true true false true) w_shared) = [RVal (VFn 0); RVal (VRef 0); RVal (VRef 0); RVal (VRef 0); RVal (VInt 9)]) by (vm_compute; reflexivity).
+  assert (E2 : snd (spec_run w_shared) = [RVal (VFn 0); RVal (VRef 0); RVal (VRef 1); RVal (VRef 0); RVal (VInt 2)]) by (vm_compute; reflexivity).
+  rewrite E1, E2 in H.
   inversion H as [|? ? ? ? _ H1]; subst. inversion H1 as [|? ? ? ? _ H2]; subst.
-  inversion H2 as [|? ? ? ? H3 _]; subst. discriminate H3.
+  inversion H2 as [|? ? ? ? H3 _]; subst. unfold obs_ref, res_rel in H3. discriminate H3.
+Qed.
+
+(* KNOWN FINDING C10-nan-key: C10_refine holds with NaN keys as Python treats them (a NaN key is found only by
+   the identity of the float object, VNan oid).  A Klong program cannot present the same NaN object twice,
+   so at the Klong level (identities forgotten: erase_op) the map laws fail: after d,[nan 1] the lookup d?nan
+   is :undefined, d,[nan 2] adds a second entry, nan_d removes nothing. *)
+Definition w_nan : list op :=
+  [OLit 0 0 []; OJoinL (AVar 0) (ALit (VList [VNan 1; VReal 1 0])); OFind (AVar 0) (ALit (VNan 2));
+   OJoinL (AVar 0) (ALit (VList [VNan 3; VReal 1 1])); OSize (AVar 0)].
+
+Theorem C10_nan_key_refuted :
+  ~ Forall2 obs_ref (snd (model_run src_flags w_nan)) (snd (spec_run (map erase_op w_nan))).
+Proof.
+  intro H.
+  assert (E1 : snd (model_run src_flags w_nan) = [RVal (VRef 0); RVal (VRef 0); RVal VUndef; RVal (VRef 0); RVal (VInt 2)]) by (vm_compute; reflexivity).
+  assert (E2 : snd (spec_run (map erase_op w_nan)) = [RVal (VRef 0); RVal (VRef 0); RVal (VReal 1 0); RVal (VRef 0); RVal (VInt 1)]) by (vm_compute; reflexivity).
+  rewrite E1, E2 in H.
+  inversion H as [|? ? ? ? _ H1]; subst. inversion H1 as [|? ? ? ? _ H2]; subst.
+  inversion H2 as [|? ? ? ? H3 _]; subst. unfold obs_ref, res_rel in H3. discriminate H3.
+Qed.
+
+(* A literal written as the payload of an entry of a literal is a dictionary of its own, fresh at every
+   evaluation of the outer literal (here through a function called twice): *)
+Definition w_nested : list op :=
+  [ODefFn 10 0 [VList [VInt 1; VDLit [VList [VInt 2; VInt 3]]]]; OCall 0 10; OCall 1 10;
+   OFind (AVar 0) (ALit (VInt 1)); OFind (AVar 1) (ALit (VInt 1))].
+
+Example C10_nested_literal :
+  snd (model_run src_flags w_nested) = [RVal (VFn 0); RVal (VRef 1); RVal (VRef 3); RVal (VRef 0); RVal (VRef 2)].
+Proof. vm_compute. reflexivity. Qed.
+
+(* Before the copy descended into nested literals the payload stayed the unevaluated constructor call: *)
+Theorem C10_refuted_without_nested_copy :
+  ~ Forall2 obs_ref (snd (model_run (mkFlags true true true false) w_nested)) (snd (spec_run w_nested)).
+Proof.
+  intro H.
+  assert (E1 : snd (model_run (mkFlags true true true false) w_nested) =
+               [RVal (VFn 0); RVal (VRef 0); RVal (VRef 1); RVal (VDLit [VList [VInt 2; VInt 3]]); RVal (VDLit [VList [VInt 2; VInt 3]])]) by (vm_compute; reflexivity).
+  assert (E2 : snd (spec_run w_nested) = [RVal (VFn 0); RVal (VRef 1); RVal (VRef 3); RVal (VRef 0); RVal (VRef 2)]) by (vm_compute; reflexivity).
+  rewrite E1, E2 in H.
+  inversion H as [|? ? ? ? _ H1]; subst. inversion H1 as [|? ? ? ? H2 _]; subst.
+  unfold obs_ref, res_rel in H2. discriminate H2.
 Qed.
 
 (* Non-vacuity: a concrete history (overwrite through an equal key of another kind, alias,
